@@ -34,7 +34,7 @@ func init() {
 		Assumptions: []string{"keyper sets have increasing activation blocks (as enforced by shuttermint)", "only safety is stated; no trigger is ever demanded"},
 		Real:        []string{"shutterservice.Keyper.processNewBlock / maybeTriggerDecryption / shouldTriggerDecryption / resolveDecryptableEon", "RegistrySyncer", "MultiEventSyncer + processors", "shutterservice handlers + middleware (updateEventFlag)", "epochkghandler.KeyShareHandler", "sqlc/pgx", "ethclient/abigen"},
 		Stub:        []string{"execution node (simeth)", "PostgreSQL (pgsim)", "libp2p (simnet)", "DKG (trusted dealer / provisioned rows)"},
-		QuickRuns:   200, ThoroughRuns: 20000, QuickMinimize: 40, ThoroughMinimize: 200,
+		QuickRuns:   1500, ThoroughRuns: 20000, QuickMinimize: 40, ThoroughMinimize: 200,
 	})
 }
 
